@@ -2264,7 +2264,7 @@ fn main() {
 	// ------------------------------------------------------------ Part C
 	if !san {
 		let sc_c = Scratch::new("c04c");
-		let n_c: u64 = run.tier.pick(10, 70);
+		let n_c: u64 = run.tier.pick(66, 90);
 		std::thread::scope(|s| {
 			for net in [Net::Test, Net::Main] {
 				let (run, sc_c) = (&run, &sc_c);
